@@ -161,6 +161,7 @@ class SymOMap:
         return _c().branch(self._ty.dt.size(self.term) > 0, site="oempty")
 
     def _insert_new(self, kt, vt):
+        self._wf()              # stamps of present keys are below `hi` (typing of the value being extended)
         m = self.term
         dt = self._ty.dt
         self._loc.set(self._ty.mk(m, dom=z3.Store(dt.dom(m), kt, z3.BoolVal(True)),
@@ -288,6 +289,7 @@ class SymOMap:
         kt = self._k(k)
         if not _c().branch(self._has(kt), site="key"):
             raise KeyError("symbolic key not in ordered dict")
+        self._wf()
         m = self.term
         dt = self._ty.dt
         self._loc.set(self._ty.mk(m, pos=z3.Store(dt.pos(m), kt, dt.hi(m)), hi=dt.hi(m) + 1))
